@@ -11,24 +11,29 @@ inductive Child where
   | arr (P A : Name) (ws1 wsE ws2 : Bytes) (l : List (Bytes × Elem))
   /-- an array whose items may carry attributes (`<rdf:li xml:lang="x-default">`: the Alt arrays of dc:title, dc:rights, dc:description) -/
   | arrA (P A : Name) (ws1 wsE ws2 : Bytes) (l : List (Bytes × List (Bytes × Attr) × Elem))
+  /-- a self-closing element without attributes: an empty array `<rdf:Bag/>`, an unknown empty property -/
+  | solo (n : Name)
 
 /-- the child as written, followed by R -/
 def Child.ser : Child → Bytes → Bytes
   | .elem e, R => e.bytes ++ R
   | .arr P A ws1 wsE ws2 l, R => P.openT (ws1 ++ A.openT (serE l ++ (wsE ++ A.closeT (ws2 ++ P.closeT R))))
   | .arrA P A ws1 wsE ws2 l, R => P.openT (ws1 ++ A.openT (serIA l ++ (wsE ++ A.closeT (ws2 ++ P.closeT R))))
+  | .solo n, R => 60 :: ((n.n0 :: n.ns) ++ 58 :: (n.name ++ 47 :: 62 :: R))
 
 /-- the tokens it must produce (newest first) -/
 def Child.push (parent : Prop2) : Child → List Tok → List Tok
   | .elem e, acc => { pt := 2, parent := parent, self := e.prop, val := e.v } :: acc
   | .arr P A _ _ _ l, acc => pushI { t := .start, parent := P.prop, self := A.prop } l acc
   | .arrA P A _ _ _ l, acc => pushIA { t := .start, parent := P.prop, self := A.prop } l acc
+  | .solo _, acc => acc
 
 /-- the rounds of fuel its nesting needs -/
 def Child.need : Child → Nat
   | .elem _ => 1
   | .arr _ _ _ _ _ l => 2 + 2 * l.length
   | .arrA _ _ _ _ _ l => 2 + 2 * l.length
+  | .solo _ => 0
 
 def Child.OK : Child → Prop
   | .elem e => e.OK
@@ -45,6 +50,7 @@ def Child.OK : Child → Prop
     (A.prop == rdfSeq || A.prop == rdfAlt || A.prop == rdfBag) = true ∧
     (∀ p ∈ l, (∀ x ∈ p.1, (x == 60) = false) ∧ p.1.length + 128 ≤ W ∧ p.2.2.Item ∧ (p.2.2.prop == A.prop) = false ∧
       (∀ q ∈ p.2.1, (∀ x ∈ q.1, isWs x = true) ∧ q.1 ≠ [] ∧ q.2.OK))
+  | .solo n => n.OK
 
 /-- one child = one round of readTag -/
 theorem readTag_child_exact (parent : Tag) (st : St) (ws : Bytes) (c : Child) (R : Bytes) (F : Nat)
@@ -61,6 +67,8 @@ theorem readTag_child_exact (parent : Tag) (st : St) (ws : Bytes) (c : Child) (R
     have e1 : f + 2 + 2 * l.length + 1 = f + 3 + 2 * l.length := by omega
     rw [e1, this]
     rfl
+  | solo n =>
+    exact readTag_solo_exact parent st ws n R F (by rw [hr]; rfl) hws hwin ok
   | arrA P A ws1 wsE ws2 l =>
     obtain ⟨f, rfl⟩ : ∃ f, F = f + 2 + 2 * l.length := ⟨F - (2 + 2 * l.length), by simp [Child.need] at hF; omega⟩
     obtain ⟨hP, hA, h1, h1w, hE, hEw, h2, h2w, hPs, hPr, hAs, hl⟩ := ok
